@@ -5,6 +5,7 @@
 set -e
 cd "$(dirname "$0")"
 mkdir -p build evidence replays
+python3 -c "import sys; sys.path.insert(0,'tools'); import vlib; vlib.gen_coqproject()"
 cd coq
 coq_makefile -f _CoqProject -o Makefile >/dev/null
 timeout 3600 make -k -j"$(nproc)" 2>&1 | grep -v '^COQC\|^COQDEP\|^Closed under\|^make' | tail -40 || true
